@@ -352,7 +352,7 @@ fn rstrategy() -> impl Strategy<Value = ROp> {
 
 pub fn parts(ctx: &mut Ctx) {
     let len = ctx.scale(5, 6);
-    let n = ctx.scale(12_000, 200_000);
+    let n = ctx.scale(12_000, 400_000);
     let ualpha = vec![UOp::Acquire, UOp::AcquireScoped, UOp::Release(0, false), UOp::Release(65535, false), UOp::Release(0, true)];
     driver::parts::<UniqueIndexSetSut>(ctx, ualpha, len + 1, 1, &[0, 1, 2, 3], &[0, 1, 2, 3, 4], ustrategy(), n);
     let ralpha = vec![ROp::Acquire(0), ROp::Acquire(1), ROp::ReleaseHeld(0, false), ROp::ReleaseHeld(65535, false), ROp::ReleaseHeld(0, true), ROp::Release(0, 1, false), ROp::Recover(0, false), ROp::Recover(1, true)];
